@@ -151,6 +151,11 @@ def make_grammars(tier, seed):
             seen.add(g.key())
             gs.append(g)
     n = 120 if tier == "quick" else 1500
+    for _ in range(24 if tier == "quick" else 200):
+        g = GR.nullable_tail_family(rng)
+        if g.key() not in seen:
+            seen.add(g.key())
+            gs.append(g)
     for _ in range(n):
         g = GR.random_grammar(rng)
         if g.key() not in seen:
@@ -245,11 +250,17 @@ def eval_inputs(name, items, nfiles):
                 layout.append((tag, i, oracle is not None, model is not None, meta))
         jobs.append(("%s_%d" % (name, fi), "\n".join(body) + "\n"))
         layouts.append(layout)
-    outs = coq_eval_many(jobs, timeout=3000)
+    outs = coq_eval_many(jobs, timeout=900)
     res = {}
     for (fname, body), layout, (ok, out) in zip(jobs, layouts, outs):
         ans = parse_bools(out) if ok else []
         need = sum(int(a) + int(b) for _, _, a, b, _ in layout)
+        if not ok and "TIMEOUT:" in out:
+            # the enumeration of this shard did not finish in time (a grammar/input whose split enumeration explodes):
+            # its inputs are not decided by the oracle (counted), which is not a failure of the parser
+            for tag, i, a, b, meta in layout:
+                res[(tag, i)] = dict(oracle=None, model=None, meta=meta, file=fname, timeout=True)
+            continue
         if not ok or len(ans) != need:
             for tag, i, a, b, meta in layout:
                 res[(tag, i)] = dict(error="coqc failed or unexpected output (%d answers for %d)\n%s" % (
@@ -336,7 +347,9 @@ def judge(fnd, base, w, pr, e, stats):
                              obligation="oracle all_trees (Properties/C03.v oracle_exact)"))
                 break
     m = e.get("model")
-    if pr["kind"] == "OK" and not pr.get("nomodel"):
+    if e.get("timeout"):
+        stats["oracle_timeout"] = stats.get("oracle_timeout", 0) + 1
+    if pr["kind"] == "OK" and not pr.get("nomodel") and not e.get("timeout"):
         if m is None or len(m) != 7:
             fnd.add("coq-eval", "model answer missing", dict(base, input=inp, answer=m), found_input=False)
         else:
@@ -621,6 +634,10 @@ def run(rep, tier, seed):
     for gi in inscope:
         g = gs[gi]
         words = inputs_for(g, rng, maxlen, nvalid, ninvalid)
+        if g.shape.startswith("nullable-tail"):
+            # productions with five or six symbols, three of them nullable: the oracle's split enumeration grows with
+            # |w|^(symbols-1); depth 3-4 of the recursion (4-5 tokens) is what this family is for
+            words = [w for w in words if len(w) <= 5]
         words_of[gi] = words
         cases.append(Case("g%d" % gi, g.text(inline=(gi % 4 == 0)), [GR.render(w) for w in words],
                           algo="GLR", table="LALR_RN", run="GLR", flags=FLAGS, meta=dict(gi=gi, shape=g.shape)))
@@ -653,7 +670,7 @@ def run(rep, tier, seed):
             if str(r2.results.get(("GLR", 0), "")).startswith("FOREST"):
                 too_large.add((r2.case.meta["gi"], r2.case.meta["i"]))
         items = [(gi, d, [(i, w, pr) for i, w, pr in ins if (gi, i) not in too_large]) for gi, d, ins in items]
-    ev = eval_inputs("c03", items, nfiles=max(NCPU * 2, sum(len(x[2]) for x in items) // 150))
+    ev = eval_inputs("c03", items, nfiles=max(NCPU * 2, sum(len(x[2]) for x in items) // 40))
     T.append(time.time())
     stats = dict(oracle_skipped=0, uncertified=0, model_checked=0)
     fnd = Findings()
@@ -719,6 +736,7 @@ def run(rep, tier, seed):
         shapes=shapes, inputs_accepted=n_ok, inputs_rejected=n_err, inputs_ambiguous=n_amb,
         inputs_with_elided_children=n_rn, trees_compared=n_trees, max_solutions=max_solutions,
         inputs_by_length=bylen, oracle_skipped_too_many_solutions=stats["oracle_skipped"],
+        oracle_shards_timed_out_inputs=stats.get("oracle_timeout", 0),
         uncertified_height_bound=stats["uncertified"], model_forests_checked=stats["model_checked"],
         phase_seconds=dict(zip(["probe", "scope-coq", "real-glr", "oracle-coq"], [round(b - a, 1) for a, b in zip(T, T[1:])])),
         samples=samples)
